@@ -153,7 +153,8 @@ func genC07(t *rapid.T) c07Case {
 			Message: pick(t, []string{"", "plain", "value {{ex.p0}}", "{{ex.p0}} and again {{ex.p0}}", "{{ex.p0}} {{ex.p1}} {{ ex.p0 }} {{ex.p-1}} {{ex.p_1}}",
 				"{{ex.a}}{{ex.b}}{{ex.c}}{{ex.d}}{{ex.e}}{{ex.f}}{{ex.g}}{{ex.h}}{{ex.i}}{{ex.j}}{{ex.k}}{{ex.l}}", "{{shapes.name}} {{core.name}}"}, "msg")})
 	}
-	c.ProfileText = p.ToY().Print(m.YOpts{})
+	// numbers in any of the spellings YAML gives them (+5, 0x5, 0o5, .5, 5e-1, 5.e-1, 00.5 ...)
+	c.ProfileText = p.ToY().Print(m.YOpts{NumStyle: rapid.SampledFrom([]int{0, 0, 1, 2, 3, 4, 5, 6, 7}).Draw(t, "numStyle")})
 	return c
 }
 
